@@ -204,7 +204,7 @@ func (r *Run) checkFn(ld *Loaded, key string, cases []stepCase, comps map[string
 			retry = append(retry, cases[o.vc.caseIdx])
 		}
 	}
-	if len(retry) > 0 {
+	if len(retry) > 0 && !r.aborted {
 		for _, o := range run(false, retry) {
 			if o.Status == "discharged" {
 				r.Stale = append(r.Stale, o.Name+": discharged only against callee bodies")
@@ -228,7 +228,7 @@ func (r *Run) checkFn(ld *Loaded, key string, cases []stepCase, comps map[string
 			}
 		}
 		repaired := 0
-		if len(im0bad) > 0 {
+		if len(im0bad) > 0 && !r.aborted {
 			alt = true
 			for _, o := range run(false, im0bad) {
 				if o.Status == "discharged" {
